@@ -443,6 +443,11 @@ def c16_cases(tier, seed):
         for w in cfg["wps"][-1:]:
             w["cap"] = rng.choice([0, w["cap"]])
         pool.append(cfg)
+    # models whose teams target their tasks one-sidedly (as BaseTeam(targeted_task_list=[...]) does)
+    for cfg in _rand(tier, seed + 6, 25, 250, "O"):
+        cfg = json.loads(json.dumps(cfg))
+        cfg["oneSidedTeams"] = True
+        pool.append(cfg)
     for cfg in pool:
         k = rng.randint(0, 5)
         simple = _saved_format_only(cfg)
